@@ -126,6 +126,20 @@ size_t strlen(const char *s)
 }
 #endif
 
+#ifdef STRCHR_EXACT
+/* exact strchr for short, harness-bounded strings (command names): plain loop, unwound completely by the unit */
+static char *verif_strchr(const char *s, int c)
+{
+	/* loop-free, exact for strings of at most 23 bytes + NUL (asserted) */
+#define SC_(i, rest) (s[i] == (char) c ? (char *) s + (i) : s[i] == 0 ? (char *) 0 : (rest))
+	return SC_(0, SC_(1, SC_(2, SC_(3, SC_(4, SC_(5, SC_(6, SC_(7, SC_(8, SC_(9, SC_(10, SC_(11,
+		SC_(12, SC_(13, SC_(14, SC_(15, SC_(16, SC_(17, SC_(18, SC_(19, SC_(20, SC_(21, SC_(22, SC_(23,
+		(__CPROVER_assert(0, "strchr (exact stub): string longer than 23 bytes"), (char *) 0)))))))))))))))))))))))));
+#undef SC_
+}
+#define NO_STUB_STRCHR
+#endif
+
 #ifndef NO_STUB_STRCHR
 /* STUB: strchr - assumes NUL-termination inside the object; returns first c (witness: byte g_mk before the result is neither c nor NUL) or NULL (witness: s[g_mk]!=c before the NUL) */
 char *strchr(const char *s, int c)
